@@ -100,6 +100,9 @@ export function writeOptionToArrayBuffer(arrayBuffer, offset, jsValue, size, ali
     if (jsValue != null) {
         writeToArrayBufferCallback(arrayBuffer, offset, jsValue);
         writeToArrayBuffer(arrayBuffer, offset + size, 1, Uint8Array);
+    } else {
+        // The buffer comes from diplomat_alloc and is not zeroed: `is_ok` has to be written for None as well.
+        writeToArrayBuffer(arrayBuffer, offset + size, 0, Uint8Array);
     }
 }
 
